@@ -22,8 +22,10 @@ VERIF = os.path.dirname(os.path.dirname(os.path.abspath(__file__)))
 TIERS = {
     # budgets are sized for a machine that is several times slower / busier than the one the checks were developed on: the slowest obligation
     # takes ~30 s here (a verdict must not flip to "unknown" under load); easy obligations finish in the first 5 % slice either way
-    "quick": dict(rlimit=160_000_000, timeout_ms=120_000, cvc5=True, ob_s=360),
-    "thorough": dict(rlimit=800_000_000, timeout_ms=400_000, cvc5=True, ob_s=1200),
+    # z3's rlimit (a deterministic amount of work) is what bounds a query; the wall-clock timeouts are only a safety net and deliberately far
+    # above what the rlimit allows on this machine, so that verdicts do not depend on the speed or load of the machine
+    "quick": dict(rlimit=200_000_000, timeout_ms=600_000, cvc5=True, ob_s=1500),
+    "thorough": dict(rlimit=1_000_000_000, timeout_ms=1_800_000, cvc5=True, ob_s=4000),
 }
 
 
